@@ -241,7 +241,7 @@ def exp_post(input_tasks, tasks, current_task_name, result):
 
 
 CONTRACTS += [
-    Contract(id='CH.expand_tasks', target='taskchain.chain:Chain._expand_tasks', props={'C08': 'decisive'},
+    Contract(id='CH.expand_tasks', feas_ms=300, target='taskchain.chain:Chain._expand_tasks', props={'C08': 'decisive'},
              inputs={'input_tasks': S(Seq(Str), 'input_tasks'), 'tasks': S(Seq(Str), 'tasks'), 'current_task_name': S(Str, 'current_task_name')},
              loops={0: Loop('exp_outer', vars={'input_task': Str, 'task_name': Str, 'namespace_check': Bool}, cells={'expanded_tasks': Seq(Str)}),
                     1: Loop('exp_inner', vars={'task_name': Str, 'namespace_check': Bool}, cells={'expanded_tasks': Seq(Str)})},
